@@ -1,5 +1,6 @@
 /-
-  C16 helper lemmas, part 3: key forming — lengths, character sets, the shape `prefix/name`.
+  C16 helper lemmas, part 3: key forming — `make_edged_name`, lengths, character sets, the shape
+  `prefix/name`, verbatim vs. re-formed (cut-and-hashed / re-edged) names.
 -/
 import Kopf.Model.C16_Names
 namespace Kopf.C16
@@ -83,96 +84,389 @@ theorem pre_of_ne {p : Str} (h : p ≠ []) : pre p = p ++ ['/'] := by
 theorem pre_length {p : Str} (h : p ≠ []) : (pre p).length = p.length + 1 := by
   rw [pre_of_ne h]; simp
 
+/-! ## `make_edged_name` -/
+
+/-- `name or 'x'` -/
+def nz (n : Str) : Str := if n.isEmpty then ['x'] else n
+/-- `name if _is_alnum(name[0]) else f'x{name[1:]}'` -/
+def fixHead (n : Str) : Str := if headAlnum n then n else 'x' :: n.tail
+/-- `name if _is_alnum(name[-1]) else f'{name[:-1]}x'` -/
+def fixLast (n : Str) : Str := if lastAlnum n then n else n.dropLast ++ ['x']
+/-- the name with both edges repaired -/
+def fixed (n : Str) : Str := fixLast (fixHead (nz n))
+
+theorem edgedName_eq (sfx : Str → Str) (name key : Str) (m : Int) :
+    edgedName sfx name key m =
+      if headAlnum name && lastAlnum name then name
+      else if (sfx key).isSuffixOf (fixed name) || (sfx (safeKey key)).isSuffixOf (fixed name) then fixed name
+      else (fixed name).take (max 1 (m - ((sfx key).length : Int))).toNat ++ sfx key := rfl
+
+/-- **`make_edged_name` is the identity on names with alphanumeric edges** -/
+theorem edgedName_of_edges (sfx : Str → Str) {name : Str} (key : Str) (m : Int)
+    (h1 : headAlnum name = true) (h2 : lastAlnum name = true) : edgedName sfx name key m = name := by
+  simp [edgedName_eq, h1, h2]
+
+theorem nz_ne_nil (n : Str) : nz n ≠ [] := by
+  unfold nz; cases n <;> simp
+
+theorem nz_length (n : Str) : (nz n).length = max 1 n.length := by
+  unfold nz; cases n with
+  | nil => simp
+  | cons c cs => simp
+
+theorem nz_all {n : Str} (h : n.all isNameChar = true) : (nz n).all isNameChar = true := by
+  unfold nz; cases n with
+  | nil => decide
+  | cons c cs => simpa using h
+
+theorem fixHead_length {n : Str} (h : n ≠ []) : (fixHead n).length = n.length := by
+  unfold fixHead
+  cases n with
+  | nil => exact absurd rfl h
+  | cons c cs => by_cases h1 : headAlnum (c :: cs) = true <;> simp [h1]
+
+theorem isAlnum_x : isAlnum 'x' = true := by decide
+
+theorem fixHead_head (n : Str) : headAlnum (fixHead n) = true := by
+  unfold fixHead
+  by_cases hh : headAlnum n = true
+  · simp [hh]
+  · rw [if_neg hh]; simp [headAlnum, isAlnum_x]
+
+theorem fixHead_all {n : Str} (h : n.all isNameChar = true) : (fixHead n).all isNameChar = true := by
+  unfold fixHead
+  split
+  · exact h
+  · rw [List.all_eq_true] at *
+    intro x hx
+    rcases List.mem_cons.1 hx with rfl | hx
+    · decide
+    · exact h x (List.mem_of_mem_tail hx)
+
+theorem fixHead_of_head {n : Str} (h : headAlnum n = true) : fixHead n = n := by simp [fixHead, h]
+
+theorem fixLast_length {n : Str} (h : n ≠ []) : (fixLast n).length = n.length := by
+  unfold fixLast
+  split
+  · rfl
+  · have : 1 ≤ n.length := by cases n with
+      | nil => exact absurd rfl h
+      | cons c cs => simp
+    simp [List.length_dropLast]; omega
+
+theorem fixLast_last (n : Str) : lastAlnum (fixLast n) = true := by
+  unfold fixLast
+  by_cases hh : lastAlnum n = true
+  · simp [hh]
+  · rw [if_neg hh]; simp [lastAlnum, isAlnum_x]
+
+theorem fixLast_head {n : Str} (h : headAlnum n = true) : headAlnum (fixLast n) = true := by
+  unfold fixLast
+  split
+  · exact h
+  · cases n with
+    | nil => simp [headAlnum] at h
+    | cons c cs =>
+      cases cs with
+      | nil => simp [headAlnum, isAlnum_x]
+      | cons d ds => simpa [headAlnum] using h
+
+theorem fixLast_all {n : Str} (h : n.all isNameChar = true) : (fixLast n).all isNameChar = true := by
+  unfold fixLast
+  split
+  · exact h
+  · rw [List.all_eq_true] at *
+    intro x hx
+    rcases List.mem_append.1 hx with hx | hx
+    · exact h x (List.dropLast_subset n hx)
+    · simp at hx; subst hx; decide
+
+theorem fixed_length (n : Str) : (fixed n).length = max 1 n.length := by
+  unfold fixed
+  have h1 := nz_ne_nil n
+  have h2 : fixHead (nz n) ≠ [] := by
+    intro e; have := fixHead_length h1; rw [e] at this
+    cases hn : nz n with
+    | nil => exact h1 hn
+    | cons c cs => rw [hn] at this; simp at this
+  rw [fixLast_length h2, fixHead_length h1, nz_length]
+
+theorem fixed_head (n : Str) : headAlnum (fixed n) = true :=
+  fixLast_head (fixHead_head (nz n))
+
+theorem fixed_last (n : Str) : lastAlnum (fixed n) = true := fixLast_last _
+
+theorem fixed_all {n : Str} (h : n.all isNameChar = true) : (fixed n).all isNameChar = true :=
+  fixLast_all (fixHead_all (nz_all h))
+
+theorem headAlnum_ne_nil {n : Str} (h : headAlnum n = true) : n ≠ [] := by
+  intro e; subst e; simp [headAlnum] at h
+
+theorem lastAlnum_ne_nil {n : Str} (h : lastAlnum n = true) : n ≠ [] := by
+  intro e; subst e; simp [lastAlnum] at h
+
+/-- **Every name `make_edged_name` returns is a valid Kubernetes name part of at most `m` characters**,
+    for a name over the name alphabet that is at most `m ≤ 63` characters long, when the hash suffix of
+    the id is usable and shorter than `m`. (No case distinction on *which* branch is taken.) -/
+theorem edged_valid (sfx : Str → Str) (name key : Str) (m : Nat) (hall : name.all isNameChar = true)
+    (hlen : name.length ≤ m) (hm63 : m ≤ 63) (hs : GoodSfx (sfx key)) (hm : (sfx key).length < m) :
+    validNamePart (edgedName sfx name key (m : Int)) = true ∧ (edgedName sfx name key (m : Int)).length ≤ m := by
+  obtain ⟨s1, s2, s3, s4⟩ := hs
+  rw [edgedName_eq]
+  by_cases hg : (headAlnum name && lastAlnum name) = true
+  · simp only [hg, if_true]
+    simp only [Bool.and_eq_true] at hg
+    have hne := headAlnum_ne_nil hg.1
+    have h1 : 1 ≤ name.length := by
+      cases name with
+      | nil => exact absurd rfl hne
+      | cons c cs => simp
+    exact ⟨validNamePart_intro h1 (by omega) hg.1 hg.2 hall, hlen⟩
+  · simp only [hg, Bool.false_eq_true, if_false]
+    have hfl := fixed_length name
+    split
+    · exact ⟨validNamePart_intro (by omega) (by omega) (fixed_head _) (fixed_last _) (fixed_all hall), by omega⟩
+    · have hcut : (max 1 ((m : Int) - ((sfx key).length : Int))).toNat = m - (sfx key).length := by omega
+      rw [hcut]
+      have hsne : sfx key ≠ [] := by intro e; rw [e] at s1; simp at s1
+      have hl : ((fixed name).take (m - (sfx key).length)).length ≤ m - (sfx key).length := by
+        rw [List.length_take]; omega
+      have hl1 : 1 ≤ ((fixed name).take (m - (sfx key).length)).length := by
+        rw [List.length_take]; omega
+      refine ⟨validNamePart_intro ?_ ?_ ?_ ?_ ?_, ?_⟩
+      · rw [List.length_append]; omega
+      · rw [List.length_append]; omega
+      · apply headAlnum_append
+        rw [headAlnum_take (by omega)]; exact fixed_head _
+      · rw [lastAlnum_append _ hsne]; exact s4
+      · exact all_append (all_take (fixed_all hall) _) s3
+      · rw [List.length_append]; omega
+
+/-- a name that is not returned untouched ends with the hash suffix of the id or of its safe form -/
+theorem edged_suffix (sfx : Str → Str) (name key : Str) (m : Int)
+    (h : ¬ (headAlnum name = true ∧ lastAlnum name = true)) :
+    sfx key <:+ edgedName sfx name key m ∨ sfx (safeKey key) <:+ edgedName sfx name key m := by
+  rw [edgedName_eq]
+  have hg : ¬ (headAlnum name && lastAlnum name) = true := by simpa using h
+  simp only [hg, Bool.false_eq_true, if_false]
+  split
+  · rename_i hh
+    simp only [Bool.or_eq_true, List.isSuffixOf_iff_suffix] at hh
+    exact hh
+  · exact Or.inl (List.suffix_append _ _)
+
+/-- **a cut-and-hashed name** `a ++ s` (`s` the suffix of the id or of its safe form, alphanumeric at the
+    end, `a` non-empty) keeps its suffix: only a bad first character is replaced -/
+theorem edged_hashed (sfx : Str → Str) (a s key : Str) (m : Int) (ha : a ≠ []) (hs : lastAlnum s = true)
+    (hk : s = sfx key ∨ s = sfx (safeKey key)) :
+    edgedName sfx (a ++ s) key m = fixHead a ++ s := by
+  have hsne := lastAlnum_ne_nil hs
+  have hl : lastAlnum (a ++ s) = true := by rw [lastAlnum_append _ hsne]; exact hs
+  have hh : headAlnum (a ++ s) = headAlnum a := by
+    cases a with
+    | nil => exact absurd rfl ha
+    | cons c cs => simp [headAlnum]
+  by_cases hg : headAlnum a = true
+  · rw [edgedName_of_edges sfx key m (by rw [hh]; exact hg) hl, fixHead_of_head hg]
+  · rw [edgedName_eq]
+    have hg' : ¬ (headAlnum (a ++ s) && lastAlnum (a ++ s)) = true := by simp [hh, hg]
+    simp only [hg', Bool.false_eq_true, if_false]
+    have hne : a ++ s ≠ [] := by simp [ha]
+    have hnz : nz (a ++ s) = a ++ s := by
+      unfold nz
+      cases a with
+      | nil => exact absurd rfl ha
+      | cons c cs => simp
+    have hfh : fixHead (a ++ s) = fixHead a ++ s := by
+      unfold fixHead
+      simp only [hh, hg, Bool.false_eq_true, if_false]
+      cases a with
+      | nil => exact absurd rfl ha
+      | cons c cs => simp
+    have hfa : fixHead a ≠ [] := by unfold fixHead; simp [hg]
+    have hfx : fixed (a ++ s) = fixHead a ++ s := by
+      unfold fixed
+      rw [hnz, hfh]
+      unfold fixLast
+      rw [lastAlnum_append _ hsne, hs]; simp
+    rw [hfx]
+    have hsuf : ((sfx key).isSuffixOf (fixHead a ++ s) || (sfx (safeKey key)).isSuffixOf (fixHead a ++ s)) = true := by
+      simp only [Bool.or_eq_true, List.isSuffixOf_iff_suffix]
+      rcases hk with rfl | rfl
+      · exact Or.inl (List.suffix_append _ _)
+      · exact Or.inr (List.suffix_append _ _)
+    simp [hsuf]
+
+theorem suffix_unique {t t' l : Str} (h : t <:+ l) (h' : t' <:+ l) (hl : t.length = t'.length) : t = t' := by
+  rw [List.suffix_iff_eq_drop] at h h'
+  rw [h, h', ← hl]
+
 /-! ## the name parts -/
 
 theorem v2Key_eq (p : Str) (sfx : Str → Str) (k : Str) : v2Key p sfx k = pre p ++ v2Name sfx k := by
-  simp [v2Key, v2Name, List.append_assoc]
+  simp [v2Key, v2Name, v2Raw]
 
 theorem v1Key_eq (p : Str) (sfx : Str → Str) (k : Str) : v1Key p sfx k = pre p ++ v1Name p sfx k := by
-  simp [v1Key, v1Name, List.append_assoc]
+  simp [v1Key, v1Name, v1Raw]
 
-theorem v2Name_short {sfx : Str → Str} {k : Str} (h : k.length ≤ 63) : v2Name sfx k = safeKey k := by
+theorem v2Raw_short {sfx : Str → Str} {k : Str} (h : k.length ≤ 63) : v2Raw sfx k = safeKey k := by
   have : ¬ k.length > 63 := by omega
-  simp only [v2Name, this, if_false, List.length_nil, List.append_nil]
+  simp only [v2Raw, this, if_false, List.length_nil, List.append_nil]
   rw [List.take_of_length_le]
   rw [safeKey_length]; omega
 
-theorem v2Name_long {sfx : Str → Str} {k : Str} (h : k.length > 63) :
-    v2Name sfx k = (safeKey k).take (63 - (sfx k).length) ++ sfx k := by
-  simp [v2Name, h]
+theorem v2Raw_long {sfx : Str → Str} {k : Str} (h : k.length > 63) :
+    v2Raw sfx k = (safeKey k).take (63 - (sfx k).length) ++ sfx k := by
+  simp [v2Raw, h]
 
-theorem validName_v2 (sfx : Str → Str) (k : Str) (hk : IdOk k) (he : EdgeOk k)
-    (hs : k.length > 63 → GoodSfx (sfx k)) : validNamePart (v2Name sfx k) = true := by
-  have hall := all_safeKey hk.2
-  by_cases h : k.length > 63
-  · obtain ⟨s1, s2, s3, s4⟩ := hs h
-    rw [v2Name_long h]
-    have hsne : sfx k ≠ [] := by intro e; rw [e] at s1; simp at s1
-    have hlen : ((safeKey k).take (63 - (sfx k).length)).length = 63 - (sfx k).length := by
-      rw [List.length_take, safeKey_length]; omega
-    apply validNamePart_intro
-    · rw [List.length_append]; omega
-    · rw [List.length_append, hlen]; omega
-    · apply headAlnum_append
-      rw [headAlnum_take (by omega)]; exact he.1
-    · rw [lastAlnum_append _ hsne]; exact s4
-    · exact all_append (all_take hall _) s3
-  · have h' : k.length ≤ 63 := by omega
-    rw [v2Name_short h']
-    have hne : 1 ≤ k.length := by
-      cases hkk : k with
-      | nil => exact absurd hkk hk.1
-      | cons c cs => simp
-    apply validNamePart_intro
-    · rw [safeKey_length]; exact hne
-    · rw [safeKey_length]; exact h'
-    · exact he.1
-    · exact he.2 h'
-    · exact hall
+theorem v2Raw_long_length {sfx : Str → Str} {k : Str} (h : k.length > 63) (hs : (sfx k).length ≤ 63) :
+    ((safeKey k).take (63 - (sfx k).length)).length = 63 - (sfx k).length := by
+  rw [List.length_take, safeKey_length]; omega
 
 theorem pyTake_nonneg (s : Str) {n : Int} (h : 0 ≤ n) : pyTake s n = s.take n.toNat := by
   simp [pyTake, h]
 
-theorem validName_v1 (p : Str) (sfx : Str → Str) (k : Str) (hk : IdOk k) (he : EdgeOkV1 p k)
-    (hs : ¬ ((safeKey k).length : Int) ≤ 63 - ((pre p).length : Int) →
-      GoodSfx (sfx (safeKey k)) ∧ (pre p).length + (sfx (safeKey k)).length < 63) :
+/-- the id is its own V1 raw name when prefix + `/` + id fit into 63 characters -/
+theorem v1Raw_short {p : Str} {sfx : Str → Str} {k : Str} (h : (pre p).length + k.length ≤ 63) :
+    v1Raw p sfx k = safeKey k := by
+  have hi : ((safeKey k).length : Int) ≤ 63 - ((pre p).length : Int) := by rw [safeKey_length]; omega
+  have hnn : (0 : Int) ≤ 63 - ((pre p).length : Int) - (([] : Str).length : Int) := by simp; omega
+  simp only [v1Raw, hi, if_true, List.append_nil]
+  rw [pyTake_nonneg _ hnn, List.take_of_length_le]
+  rw [safeKey_length]; simp; omega
+
+/-- the V1 raw name of an id too long to be its own V1 name, when there is room for the suffix -/
+theorem v1Raw_hashed {p : Str} {sfx : Str → Str} {k : Str}
+    (h : 63 < (pre p).length + k.length) (hl : (pre p).length + (sfx (safeKey k)).length < 63) :
+    v1Raw p sfx k =
+      (safeKey k).take (63 - (pre p).length - (sfx (safeKey k)).length) ++ sfx (safeKey k) ∧
+    ((safeKey k).take (63 - (pre p).length - (sfx (safeKey k)).length)).length
+      = 63 - (pre p).length - (sfx (safeKey k)).length := by
+  have hi : ¬ ((safeKey k).length : Int) ≤ 63 - ((pre p).length : Int) := by
+    rw [safeKey_length]; omega
+  have hnn : (0 : Int) ≤ 63 - ((pre p).length : Int) - ((sfx (safeKey k)).length : Int) := by omega
+  constructor
+  · simp only [v1Raw, hi, if_false]
+    rw [pyTake_nonneg _ hnn]
+    congr 2
+    omega
+  · rw [List.length_take, safeKey_length]; omega
+
+theorem verbatim_ne_nil {k : Str} (h : Verbatim k) : k ≠ [] := by
+  intro e; subst e; exact absurd h.1 (by decide)
+
+/-- **verbatim**: an id of at most 63 characters whose safe form has alphanumeric edges is its own V2 name -/
+theorem v2Name_verbatim {sfx : Str → Str} {k : Str} (h : k.length ≤ 63) (hv : Verbatim k) :
+    v2Name sfx k = safeKey k := by
+  rw [v2Name, v2Raw_short h]; exact edgedName_of_edges sfx k 63 hv.1 hv.2
+
+theorem v1Name_verbatim {p : Str} {sfx : Str → Str} {k : Str} (h : (pre p).length + k.length ≤ 63)
+    (hv : Verbatim k) : v1Name p sfx k = safeKey k := by
+  rw [v1Name, v1Raw_short h]; exact edgedName_of_edges sfx k _ hv.1 hv.2
+
+/-- **cut-and-hashed V2 name**: 63 characters ending with the digest of the id; a bad first character
+    (the only edge that can be bad) is replaced by `x` -/
+theorem v2Name_long {sfx : Str → Str} {k : Str} (h : k.length > 63) (hs1 : (sfx k).length ≤ 62)
+    (hs : lastAlnum (sfx k) = true) :
+    v2Name sfx k = fixHead ((safeKey k).take (63 - (sfx k).length)) ++ sfx k ∧
+    (fixHead ((safeKey k).take (63 - (sfx k).length))).length = 63 - (sfx k).length := by
+  have hl := v2Raw_long_length (sfx := sfx) h (by omega)
+  have hne : (safeKey k).take (63 - (sfx k).length) ≠ [] := by
+    intro e; rw [e] at hl; simp at hl; omega
+  refine ⟨?_, by rw [fixHead_length hne, hl]⟩
+  rw [v2Name, v2Raw_long h]
+  exact edged_hashed sfx _ _ k 63 hne hs (Or.inl rfl)
+
+/-- **cut-and-hashed V1 name**: `63 - |prefix/|` characters ending with the digest of the safe form -/
+theorem v1Name_hashed {p : Str} {sfx : Str → Str} {k : Str}
+    (h : 63 < (pre p).length + k.length) (hl : (pre p).length + (sfx (safeKey k)).length < 63)
+    (hs : lastAlnum (sfx (safeKey k)) = true) :
+    v1Name p sfx k =
+      fixHead ((safeKey k).take (63 - (pre p).length - (sfx (safeKey k)).length)) ++ sfx (safeKey k) ∧
+    (fixHead ((safeKey k).take (63 - (pre p).length - (sfx (safeKey k)).length))).length
+      = 63 - (pre p).length - (sfx (safeKey k)).length := by
+  obtain ⟨e, l⟩ := v1Raw_hashed (sfx := sfx) h hl
+  have hne : (safeKey k).take (63 - (pre p).length - (sfx (safeKey k)).length) ≠ [] := by
+    intro e'; rw [e'] at l; simp at l; omega
+  refine ⟨?_, by rw [fixHead_length hne, l]⟩
+  rw [v1Name, e]
+  exact edged_hashed sfx _ _ k _ hne hs (Or.inr rfl)
+
+/-- **every re-formed V2 name carries a digest**: the V2 name of an id that is longer than 63
+    characters or whose safe form has a bad edge ends with the suffix of the id or of its safe form -/
+theorem v2Name_reformed_suffix (sfx : Str → Str) {k : Str} (h : k.length > 63 ∨ ¬ Verbatim k) :
+    sfx k <:+ v2Name sfx k ∨ sfx (safeKey k) <:+ v2Name sfx k := by
+  by_cases hg : headAlnum (v2Raw sfx k) = true ∧ lastAlnum (v2Raw sfx k) = true
+  · rw [v2Name, edgedName_of_edges sfx k 63 hg.1 hg.2]
+    by_cases hl : k.length > 63
+    · rw [v2Raw_long hl]; exact Or.inl (List.suffix_append _ _)
+    · rw [v2Raw_short (by omega)] at hg
+      rcases h with h | h
+      · exact absurd h hl
+      · exact absurd hg h
+  · exact edged_suffix sfx _ k 63 hg
+
+/-- … and every re-formed V1 name -/
+theorem v1Name_reformed_suffix (p : Str) (sfx : Str → Str) {k : Str}
+    (h : 63 < (pre p).length + k.length ∨ ¬ Verbatim k) :
+    sfx k <:+ v1Name p sfx k ∨ sfx (safeKey k) <:+ v1Name p sfx k := by
+  by_cases hg : headAlnum (v1Raw p sfx k) = true ∧ lastAlnum (v1Raw p sfx k) = true
+  · rw [v1Name, edgedName_of_edges sfx k _ hg.1 hg.2]
+    by_cases hl : 63 < (pre p).length + k.length
+    · have hi : ¬ ((safeKey k).length : Int) ≤ 63 - ((pre p).length : Int) := by
+        rw [safeKey_length]; omega
+      simp only [v1Raw, hi, if_false]
+      exact Or.inr (List.suffix_append _ _)
+    · rw [v1Raw_short (by omega)] at hg
+      rcases h with h | h
+      · exact absurd h hl
+      · exact absurd hg h
+  · exact edged_suffix sfx _ k _ hg
+
+/-! ## valid names -/
+
+theorem v2Raw_all (sfx : Str → Str) {k : Str} (hk : IdChars k) (hs : k.length > 63 → (sfx k).all isNameChar = true) :
+    (v2Raw sfx k).all isNameChar = true := by
+  have hall := all_safeKey hk
+  by_cases h : k.length > 63
+  · rw [v2Raw_long h]; exact all_append (all_take hall _) (hs h)
+  · rw [v2Raw_short (by omega)]; exact hall
+
+theorem v2Raw_length (sfx : Str → Str) {k : Str} (hs : k.length > 63 → (sfx k).length ≤ 63) :
+    (v2Raw sfx k).length ≤ 63 := by
+  by_cases h : k.length > 63
+  · rw [v2Raw_long h, List.length_append, v2Raw_long_length h (hs h)]; have := hs h; omega
+  · rw [v2Raw_short (by omega), safeKey_length]; omega
+
+/-- **the V2 name part is always a valid Kubernetes name part** — for every id over the alphabet
+    (any length, the empty id included), given only the facts about the digest suffix of the id -/
+theorem validName_v2 (sfx : Str → Str) (k : Str) (hk : IdChars k) (hs : GoodSfx (sfx k)) :
+    validNamePart (v2Name sfx k) = true := by
+  have := hs
+  obtain ⟨s1, s2, s3, s4⟩ := this
+  exact (edged_valid sfx (v2Raw sfx k) k 63 (v2Raw_all sfx hk (fun _ => s3))
+    (v2Raw_length sfx (fun _ => by omega)) (by omega) hs (by omega)).1
+
+/-- **the V1 name part** is a valid name part, and prefix + `/` + name stay within 63 characters,
+    whenever there is room for a suffix (`v1_fits`, with suffixes no longer than the one measured) -/
+theorem validName_v1 (p : Str) (sfx : Str → Str) (k : Str) (hk : IdChars k)
+    (hroom : (pre p).length + (sfx []).length < 63)
+    (hs : GoodSfx (sfx k) ∧ (sfx k).length ≤ (sfx []).length)
+    (hs1 : 63 < (pre p).length + k.length → GoodSfx (sfx (safeKey k)) ∧ (sfx (safeKey k)).length ≤ (sfx []).length) :
     validNamePart (v1Name p sfx k) = true ∧ (pre p).length + (v1Name p sfx k).length ≤ 63 := by
-  have hall := all_safeKey hk.2
-  have hne : 1 ≤ (safeKey k).length := by
-    rw [safeKey_length]
-    cases hkk : k with
-    | nil => exact absurd hkk hk.1
-    | cons c cs => simp
-  by_cases h : ((safeKey k).length : Int) ≤ 63 - ((pre p).length : Int)
-  · have hnn : (0 : Int) ≤ 63 - ((pre p).length : Int) - (([] : Str).length : Int) := by
-      simp; omega
-    have hv : v1Name p sfx k = safeKey k := by
-      simp only [v1Name, h, if_true, List.append_nil]
-      rw [pyTake_nonneg _ hnn, List.take_of_length_le]
-      simp; omega
-    rw [hv]
-    refine ⟨validNamePart_intro hne (by omega) he.1 (he.2 (by rw [safeKey_length] at h; omega)) hall, by omega⟩
-  · obtain ⟨⟨s1, s2, s3, s4⟩, hl⟩ := hs h
-    have hsne : sfx (safeKey k) ≠ [] := by intro e; rw [e] at s1; simp at s1
-    have hnn : (0 : Int) ≤ 63 - ((pre p).length : Int) - ((sfx (safeKey k)).length : Int) := by omega
-    have hv : v1Name p sfx k =
-        (safeKey k).take (63 - (pre p).length - (sfx (safeKey k)).length) ++ sfx (safeKey k) := by
-      simp only [v1Name, h, if_false]
-      rw [pyTake_nonneg _ hnn]
-      congr 2
-      omega
-    rw [hv]
-    have hlen : ((safeKey k).take (63 - (pre p).length - (sfx (safeKey k)).length)).length
-        = 63 - (pre p).length - (sfx (safeKey k)).length := by
-      rw [List.length_take]; omega
-    refine ⟨validNamePart_intro ?_ ?_ ?_ ?_ ?_, ?_⟩
-    · rw [List.length_append]; omega
-    · rw [List.length_append, hlen]; omega
-    · apply headAlnum_append
-      rw [headAlnum_take (by omega)]; exact he.1
-    · rw [lastAlnum_append _ hsne]; exact s4
-    · exact all_append (all_take hall _) s3
-    · rw [List.length_append, hlen]; omega
+  have hall := all_safeKey hk
+  have hm : ((63 - (pre p).length : Nat) : Int) = 63 - ((pre p).length : Int) := by omega
+  have hraw : (v1Raw p sfx k).all isNameChar = true ∧ (v1Raw p sfx k).length ≤ 63 - (pre p).length := by
+    by_cases h : 63 < (pre p).length + k.length
+    · obtain ⟨⟨_, _, t3, _⟩, tl⟩ := hs1 h
+      obtain ⟨e, l⟩ := v1Raw_hashed (sfx := sfx) h (by omega)
+      rw [e]
+      exact ⟨all_append (all_take hall _) t3, by rw [List.length_append, l]; omega⟩
+    · rw [v1Raw_short (by omega), safeKey_length]
+      exact ⟨hall, by omega⟩
+  have := edged_valid sfx (v1Raw p sfx k) k (63 - (pre p).length) hraw.1 hraw.2 (by omega) hs.1 (by have := hs.2; omega)
+  rw [hm] at this
+  exact ⟨this.1, by have := this.2; unfold v1Name; omega⟩
 
 /-! ## `prefix/name` is a qualified name -/
 
@@ -230,17 +524,11 @@ theorem slash_split_unique (p p' n n' : Str) (hp : ∀ c ∈ p, c ≠ '/') (hp' 
   simp at h1
   exact ⟨h1.1.symm, h1.2.symm⟩
 
-/-! ## distinctness of v2 names -/
-
-theorem v2Name_long_length {sfx : Str → Str} {k : Str} (h : k.length > 63) (hs : (sfx k).length ≤ 63) :
-    ((safeKey k).take (63 - (sfx k).length)).length = 63 - (sfx k).length := by
-  rw [List.length_take, safeKey_length]; omega
-
 /-- a valid DNS-subdomain prefix is in particular plain (non-empty, no `/`) -/
 theorem plain_of_valid {p : Str} (h : validPrefix p = true) : PlainPrefix p :=
   ⟨validPrefix_ne_nil h, validPrefix_noslash h⟩
 
-/-! ## a handler's v2 name versus the `kopf-managed` marker -/
+/-! ## a handler's names versus the `kopf-managed` marker -/
 
 theorem safeKey_markKey_ne {d : Bool} {k k' : Str} (h : safeKey k ≠ safeKey k') :
     safeKey (markKey d k) ≠ safeKey (markKey d k') := by
@@ -251,36 +539,26 @@ theorem safeKey_markKey_ne {d : Bool} {k k' : Str} (h : safeKey k ≠ safeKey k'
     intro e
     exact h (List.append_cancel_right e)
 
-theorem v2Key_ne_marker_short {p : Str} (hp : p ≠ []) (sfx : Str → Str) {k : Str} (hk : k.length ≤ 63)
-    (hm : safeKey k ≠ "kopf-managed".toList) : v2Key p sfx k ≠ markerName p := by
-  rw [v2Key_eq, pre_of_ne hp, v2Name_short hk]
+theorem name_ne_marker {p : Str} (hp : p ≠ []) {n : Str} (h : n ≠ "kopf-managed".toList) :
+    pre p ++ n ≠ markerName p := by
+  rw [pre_of_ne hp]
   intro e
-  have e' : p ++ '/' :: safeKey k = p ++ '/' :: "kopf-managed".toList := by
-    simpa [markerName] using e
+  have e' : p ++ '/' :: n = p ++ '/' :: "kopf-managed".toList := by simpa [markerName] using e
   have := List.append_cancel_left e'
   simp at this
-  exact hm this
+  exact h this
 
-theorem v2Key_ne_marker_long {p : Str} (hp : p ≠ []) (sfx : Str → Str) {k : Str} (hk : k.length > 63)
-    (hs : (sfx k).length ≤ 63) : v2Key p sfx k ≠ markerName p := by
-  rw [v2Key_eq, pre_of_ne hp, v2Name_long hk]
+theorem v2Key_ne_marker_short {p : Str} (hp : p ≠ []) (sfx : Str → Str) {k : Str} (hk : k.length ≤ 63)
+    (hv : Verbatim k) (hm : safeKey k ≠ "kopf-managed".toList) : v2Key p sfx k ≠ markerName p := by
+  rw [v2Key_eq, v2Name_verbatim hk hv]
+  exact name_ne_marker hp hm
+
+/-- a name that ends with a suffix which is not the end of `kopf-managed` is not the marker -/
+theorem ne_marker_of_suffix {n t : Str} (h : t <:+ n) (ht : t.isSuffixOf "kopf-managed".toList = false) :
+    n ≠ "kopf-managed".toList := by
   intro e
-  have e' : p ++ '/' :: ((safeKey k).take (63 - (sfx k).length) ++ sfx k) = p ++ '/' :: "kopf-managed".toList := by
-    simpa [markerName] using e
-  have h2 := List.append_cancel_left e'
-  simp only [List.cons.injEq, true_and] at h2
-  have h3 := congrArg List.length h2
-  rw [List.length_append, v2Name_long_length hk hs] at h3
-  have : ("kopf-managed".toList).length = 12 := by decide
-  omega
-
-
-/-! ## the guard `EdgeOk` is exact -/
-
-theorem headAlnum_append_of_ne {a : Str} (ha : a ≠ []) (b : Str) : headAlnum (a ++ b) = headAlnum a := by
-  cases a with
-  | nil => exact absurd rfl ha
-  | cons c cs => simp [headAlnum]
+  rw [e, ← List.isSuffixOf_iff_suffix, ht] at h
+  cases h
 
 theorem validQualified_split {p n : Str} (hp : ∀ c ∈ p, c ≠ '/') :
     validQualified (p ++ '/' :: n) = (validPrefix p && validNamePart n) := by
@@ -290,49 +568,22 @@ theorem validNamePart_edges {n : Str} (h : validNamePart n = true) : headAlnum n
   simp [validNamePart] at h
   exact ⟨h.1.1.2, h.1.2⟩
 
-/-- a valid V2 name forces `EdgeOk`: the guard of `valid_name_v2_partial` is not broader than F6 -/
-theorem edgeOk_of_valid_v2 (sfx : Str → Str) (k : Str) (hs : k.length > 63 → GoodSfx (sfx k))
-    (h : validNamePart (v2Name sfx k) = true) : EdgeOk k := by
-  obtain ⟨hh, hl⟩ := validNamePart_edges h
-  by_cases hk : k.length > 63
-  · obtain ⟨s1, s2, _, _⟩ := hs hk
-    refine ⟨?_, fun h63 => by omega⟩
-    rw [v2Name_long hk] at hh
-    have hne : (safeKey k).take (63 - (sfx k).length) ≠ [] := by
-      intro e
-      have hl' := v2Name_long_length (sfx := sfx) hk (by omega)
-      rw [e] at hl'
-      simp only [List.length_nil] at hl'
-      omega
-    rw [headAlnum_append_of_ne hne, headAlnum_take (by omega)] at hh
-    exact hh
-  · rw [v2Name_short (by omega)] at hh hl
-    exact ⟨hh, fun _ => hl⟩
-
 /-! ## how many names `make_keys` yields -/
 
 theorem v1Key_eq_v2Key_of_room {p : Str} {sfx : Str → Str} {k : Str}
-    (h : (pre p).length + k.length ≤ 63) : v1Key p sfx k = v2Key p sfx k := by
-  have hk : k.length ≤ 63 := by omega
-  have hi : ((safeKey k).length : Int) ≤ 63 - ((pre p).length : Int) := by
-    rw [safeKey_length]; omega
-  have hnn : (0 : Int) ≤ 63 - ((pre p).length : Int) - (([] : Str).length : Int) := by simp; omega
-  rw [v1Key_eq, v2Key_eq, v2Name_short hk]
-  congr 1
-  simp only [v1Name, hi, if_true, List.append_nil]
-  rw [pyTake_nonneg _ hnn, List.take_of_length_le]
-  rw [safeKey_length]; simp; omega
+    (h : (pre p).length + k.length ≤ 63) (hv : Verbatim k) : v1Key p sfx k = v2Key p sfx k := by
+  rw [v1Key_eq, v2Key_eq, v2Name_verbatim (by omega) hv, v1Name_verbatim h hv]
 
 /-- one name only: V1 keys switched off, or no room for them (prefix of 55+ characters), or the
-    id is short enough to be its own V1 name -/
+    id is short enough — and alphanumeric at both ends — to be its own V1 name -/
 theorem makeKeys_single {p : Str} {v1 : Bool} {sfx : Str → Str} {k : Str}
-    (h : v1 = false ∨ v1Fits p sfx = false ∨ (pre p).length + k.length ≤ 63) :
+    (h : v1 = false ∨ v1Fits p sfx = false ∨ ((pre p).length + k.length ≤ 63 ∧ Verbatim k)) :
     makeKeys p v1 sfx k = [v2Key p sfx k] := by
   unfold makeKeys
   rcases h with h | h | h
   · simp [h]
   · simp [h]
-  · simp [v1Key_eq_v2Key_of_room h]
+  · simp [v1Key_eq_v2Key_of_room h.1 h.2]
 
 theorem makeKeys_subset (p : Str) (v1 : Bool) (sfx : Str → Str) (k : Str) :
     ∀ n ∈ makeKeys p v1 sfx k, n = v2Key p sfx k ∨ (n = v1Key p sfx k ∧ v1 = true ∧ v1Fits p sfx = true) := by
@@ -347,47 +598,58 @@ theorem makeKeys_subset (p : Str) (v1 : Bool) (sfx : Str → Str) (k : Str) :
     · exact Or.inr ⟨rfl, h.1.1, h.1.2⟩
   · simp at hn; exact Or.inl hn
 
-/-- the V1 name of an id too long to be its own V1 name, when there is room for the suffix -/
-theorem v1Name_hashed {p : Str} {sfx : Str → Str} {k : Str}
-    (h : 63 < (pre p).length + k.length) (hl : (pre p).length + (sfx (safeKey k)).length < 63) :
-    v1Name p sfx k =
-      (safeKey k).take (63 - (pre p).length - (sfx (safeKey k)).length) ++ sfx (safeKey k) ∧
-    ((safeKey k).take (63 - (pre p).length - (sfx (safeKey k)).length)).length
-      = 63 - (pre p).length - (sfx (safeKey k)).length := by
-  have hi : ¬ ((safeKey k).length : Int) ≤ 63 - ((pre p).length : Int) := by
-    rw [safeKey_length]; omega
-  have hnn : (0 : Int) ≤ 63 - ((pre p).length : Int) - ((sfx (safeKey k)).length : Int) := by omega
-  constructor
-  · simp only [v1Name, hi, if_false]
-    rw [pyTake_nonneg _ hnn]
-    congr 2
-    omega
-  · rw [List.length_take, safeKey_length]; omega
-
 theorem v1Fits_iff (p : Str) (sfx : Str → Str) : v1Fits p sfx = true ↔ (pre p).length + (sfx []).length < 63 := by
   simp [v1Fits]
 
-/-- two ids that are both too long to be their own V1 names, with different V2 names and different
-    (equally long) digests of their safe forms, share no annotation name at all -/
-theorem names_disjoint_hashed {p : Str} (hp : p ≠ []) {sfx : Str → Str} {k k' : Str}
+/-- **every name of a re-formed id carries a digest**: if the id is longer than 63 characters or its
+    safe form has a bad edge, each of its annotation names (V2 and V1) is `prefix/…` + a name part
+    that ends with the suffix of the id or of its safe form -/
+theorem names_reformed_suffix (p : Str) (v1 : Bool) (sfx : Str → Str) {k : Str}
+    (h : k.length > 63 ∨ ¬ Verbatim k) :
+    ∀ n ∈ makeKeys p v1 sfx k, ∃ e, n = pre p ++ e ∧ (sfx k <:+ e ∨ sfx (safeKey k) <:+ e) := by
+  intro n hn
+  rcases makeKeys_subset p v1 sfx k n hn with rfl | ⟨rfl, _, _⟩
+  · exact ⟨_, v2Key_eq p sfx k, v2Name_reformed_suffix sfx h⟩
+  · refine ⟨_, v1Key_eq p sfx k, v1Name_reformed_suffix p sfx ?_⟩
+    rcases h with h | h
+    · exact Or.inl (by omega)
+    · exact Or.inr h
+
+/-- two re-formed ids whose digests (of the id and of the safe form: four suffixes of one length)
+    are pairwise different share no annotation name -/
+theorem names_disjoint_reformed {p : Str} {sfx : Str → Str} {k k' : Str}
+    (hr : k.length > 63 ∨ ¬ Verbatim k) (hr' : k'.length > 63 ∨ ¬ Verbatim k')
+    (hlen : ∀ t ∈ [sfx k, sfx (safeKey k)], ∀ t' ∈ [sfx k', sfx (safeKey k')], t.length = t'.length ∧ t ≠ t')
+    (v1 : Bool) :
+    ∀ n ∈ makeKeys p v1 sfx k, ∀ n' ∈ makeKeys p v1 sfx k', n' ≠ n := by
+  intro n hn n' hn' e
+  obtain ⟨x, rfl, hx⟩ := names_reformed_suffix p v1 sfx hr n hn
+  obtain ⟨x', rfl, hx'⟩ := names_reformed_suffix p v1 sfx hr' n' hn'
+  have exx : x' = x := List.append_cancel_left e
+  subst exx
+  have key : ∀ t ∈ [sfx k, sfx (safeKey k)], ∀ t' ∈ [sfx k', sfx (safeKey k')], t <:+ x' → t' <:+ x' → False :=
+    fun t ht t' ht' h1 h2 => (hlen t ht t' ht').2 (suffix_unique h1 h2 (hlen t ht t' ht').1)
+  rcases hx with hx | hx <;> rcases hx' with hx' | hx'
+  · exact key _ (by simp) _ (by simp) hx hx'
+  · exact key _ (by simp) _ (by simp) hx hx'
+  · exact key _ (by simp) _ (by simp) hx hx'
+  · exact key _ (by simp) _ (by simp) hx hx'
+
+/-- two ids of at most 63 characters, alphanumeric at both ends, both too long to be their own V1
+    names, with different safe forms and different (equally long) digests of the safe forms, share no
+    annotation name at all: their V2 names are their safe forms, their V1 names are shorter and end
+    with the digests -/
+theorem names_disjoint_hashed {p : Str} {sfx : Str → Str} {k k' : Str}
+    (hk : k.length ≤ 63) (hk' : k'.length ≤ 63) (hv : Verbatim k) (hv' : Verbatim k')
     (hb : 63 < (pre p).length + k.length) (hb' : 63 < (pre p).length + k'.length)
     (hroom : (pre p).length + (sfx (safeKey k)).length < 63)
     (hsl : (sfx (safeKey k)).length = (sfx (safeKey k')).length)
+    (hla : lastAlnum (sfx (safeKey k)) = true) (hla' : lastAlnum (sfx (safeKey k')) = true)
     (hsne : sfx (safeKey k) ≠ sfx (safeKey k'))
-    (hlong : k.length > 63 → (sfx k).length ≤ 63) (hlong' : k'.length > 63 → (sfx k').length ≤ 63)
-    (hv2 : v2Key p sfx k ≠ v2Key p sfx k') (v1 : Bool) :
+    (hne : safeKey k ≠ safeKey k') (v1 : Bool) :
     ∀ n ∈ makeKeys p v1 sfx k, ∀ n' ∈ makeKeys p v1 sfx k', n' ≠ n := by
-  have hpl := pre_length hp
-  -- lengths of the name parts
-  have hv2len : ∀ x : Str, 63 < (pre p).length + x.length → (x.length > 63 → (sfx x).length ≤ 63) →
-      63 - (pre p).length < (v2Name sfx x).length := by
-    intro x hx hxl
-    by_cases h63 : x.length > 63
-    · rw [v2Name_long h63, List.length_append, v2Name_long_length h63 (hxl h63)]
-      have := hxl h63; omega
-    · rw [v2Name_short (by omega), safeKey_length]; omega
-  obtain ⟨e1, l1⟩ := v1Name_hashed hb hroom
-  obtain ⟨e1', l1'⟩ := v1Name_hashed (sfx := sfx) hb' (by omega)
+  obtain ⟨e1, l1⟩ := v1Name_hashed hb hroom hla
+  obtain ⟨e1', l1'⟩ := v1Name_hashed (sfx := sfx) hb' (by omega) hla'
   have hv1len : (v1Name p sfx k).length = 63 - (pre p).length := by
     rw [e1, List.length_append, l1]; omega
   have hv1len' : (v1Name p sfx k').length = 63 - (pre p).length := by
@@ -396,15 +658,16 @@ theorem names_disjoint_hashed {p : Str} (hp : p ≠ []) {sfx : Str → Str} {k k
   subst e
   rcases makeKeys_subset p v1 sfx k n' hn with h | ⟨h, _, _⟩ <;>
     rcases makeKeys_subset p v1 sfx k' n' hn' with h' | ⟨h', _, _⟩
-  · exact hv2 (h.symm.trans h')
+  · rw [h, v2Key_eq, v2Key_eq, v2Name_verbatim hk hv, v2Name_verbatim hk' hv'] at h'
+    exact hne (List.append_cancel_left h')
   · -- v2 name of k = v1 name of k'
-    rw [h, v2Key_eq, v1Key_eq] at h'
+    rw [h, v2Key_eq, v1Key_eq, v2Name_verbatim hk hv] at h'
     have := congrArg List.length (List.append_cancel_left h')
-    have := hv2len k hb hlong
+    rw [safeKey_length] at this
     omega
-  · rw [h, v2Key_eq, v1Key_eq] at h'
+  · rw [h, v1Key_eq, v2Key_eq, v2Name_verbatim hk' hv'] at h'
     have := congrArg List.length (List.append_cancel_left h')
-    have := hv2len k' hb' hlong'
+    rw [safeKey_length] at this
     omega
   · rw [h, v1Key_eq, v1Key_eq] at h'
     have e2 := List.append_cancel_left h'
@@ -414,15 +677,13 @@ theorem names_disjoint_hashed {p : Str} (hp : p ≠ []) {sfx : Str → Str} {k k
 
 theorem v1Key_ne_marker_hashed {p : Str} (hp : p ≠ []) {sfx : Str → Str} {k : Str}
     (hb : 63 < (pre p).length + k.length) (hroom : (pre p).length + (sfx (safeKey k)).length < 63)
+    (hla : lastAlnum (sfx (safeKey k)) = true)
     (h51 : (pre p).length ≠ 51) : v1Key p sfx k ≠ markerName p := by
-  obtain ⟨e1, l1⟩ := v1Name_hashed hb hroom
-  rw [v1Key_eq, pre_of_ne hp]
+  obtain ⟨e1, l1⟩ := v1Name_hashed hb hroom hla
+  rw [v1Key_eq]
+  apply name_ne_marker hp
   intro e
-  have e' : p ++ '/' :: v1Name p sfx k = p ++ '/' :: "kopf-managed".toList := by
-    simpa [markerName] using e
-  have h2 := List.append_cancel_left e'
-  simp only [List.cons.injEq, true_and] at h2
-  have h3 := congrArg List.length h2
+  have h3 := congrArg List.length e
   rw [e1, List.length_append, l1] at h3
   have : ("kopf-managed".toList).length = 12 := by decide
   omega
